@@ -473,6 +473,28 @@ def impl_roundtrip(casbin, kind, level, mname, pol, tmp):
     return err + "," + (enc_store(out) if out is not None else "-"), text
 
 
+def rt_signature(which, nrules, impl):
+    return f"roundtrip:{which}:" + ("empty-policy" if nrules == 0 and impl.startswith("!invalidLine") else "raises:" + impl.split(":")[1] if impl.startswith("!other") else "raises" if impl.startswith("!") else "differs")
+
+
+def shrink_roundtrip(casbin, v, defs, tmp):
+    """try the policy's rules one at a time: keep the first single-rule policy that still violates with the same signature"""
+    kind = "string" if v["adapter"] == "string" else "file"
+    for key, rules in v["policy"]:
+        for r in rules:
+            pol = [(k, ([r] if k == key else [])) for k, _ in v["policy"]]
+            d = dict(pol)
+            st = enc_store([(k, a, d.get(k, [])) for k, a in defs])
+            model, spec, dom = pc.parse_msd(run_driver("persist", [f"roundtrip\t{kind}\t{st}"])[0])
+            if spec == "?":
+                continue
+            impl, text = impl_roundtrip(casbin, v["adapter"], v["level"], v["model_name"], pol, tmp)
+            if impl != spec and rt_signature(v["adapter"], 1, impl) == v["signature"]:
+                return dict(v, policy=pol, expected=spec, observed=impl, saved_text=text, shrunk_from=v["policy"],
+                            what=f"{v['adapter']} adapter ({v['level']} level, model {v['model_name']}): save_policy then load_policy gives {show_store(impl)} instead of the saved policy")
+    return v
+
+
 def rt_job(job):
     seed, n, probe = job
     import random
@@ -501,6 +523,7 @@ def rt_job(job):
         for kind in ("file", "string"):
             dl.append(f"roundtrip\t{kind}\t{st}")
     ans = run_driver("persist", dl)
+    shrunk = set()
     with pc.TmpDir() as tmp:
         for i, (mname, level, pol) in enumerate(cases):
             for j, kind in enumerate(("file", "string")):
@@ -526,16 +549,18 @@ def rt_job(job):
                         if dom and merr + "," + mstore != spec:
                             part.mvs({"case": case, "model": model, "spec": spec})
                         if impl != spec:
-                            part.violation(
-                                dict(
-                                    case,
-                                    signature=f"roundtrip:{which}:" + ("empty-policy" if nrules == 0 and impl.startswith("!invalidLine") else "raises:" + impl.split(":")[1] if impl.startswith("!other") else "raises" if impl.startswith("!") else "differs"),
-                                    what=f"{which} adapter ({level} level, model {mname}): save_policy then load_policy gives {show_store(impl)} instead of the saved policy",
-                                    expected=spec,
-                                    observed=impl,
-                                    saved_text=text,
-                                )
+                            v = dict(
+                                case,
+                                signature=rt_signature(which, nrules, impl),
+                                what=f"{which} adapter ({level} level, model {mname}): save_policy then load_policy gives {show_store(impl)} instead of the saved policy",
+                                expected=spec,
+                                observed=impl,
+                                saved_text=text,
                             )
+                            if v["signature"] not in shrunk and len(shrunk) < 3 and nrules > 1:
+                                shrunk.add(v["signature"])
+                                v = shrink_roundtrip(casbin, v, defs[mname], tmp)
+                            part.violation(v)
         if cases:
             part.sample({"model": cases[0][0], "level": cases[0][1], "policy": cases[0][2]})
     return part
